@@ -29,9 +29,9 @@ def intChars (n : Int) : List Char :=
 
 /-- `strconv.ParseInt(s, 10, _)` without the range check: optional `+`/`-`, then digits. -/
 def parseIntChars : List Char → Option Int
-  | '-' :: cs => (parseDecChars cs).map (fun n => - (n : Int))
-  | '+' :: cs => (parseDecChars cs).map (fun n => (n : Int))
-  | cs => (parseDecChars cs).map (fun n => (n : Int))
+  | '-' :: cs => (parseDecChars cs).map (fun (n : Nat) => - Int.ofNat n)
+  | '+' :: cs => (parseDecChars cs).map (fun (n : Nat) => Int.ofNat n)
+  | cs => (parseDecChars cs).map (fun (n : Nat) => Int.ofNat n)
 
 /-! ## hex -/
 
